@@ -119,7 +119,7 @@ Proof.
   destruct (notify_first (ws s)) as (l' & NF).
   assert (PU : forall t rest, exists s', step_push pa s t rest (first_waiter (ws s) 0) = Some s').
   { intros. unfold step_push. rewrite C. destruct (push_blocked pa s (tsize t)); eauto.
-    unfold admit. rewrite NF. eauto. }
+    unfold do_admit. rewrite NF. eauto. }
   destruct HI.
   destruct (pst s) eqn:P.
   - destruct (todo s) as [|[t|] rest] eqn:T.
@@ -285,7 +285,7 @@ Proof.
     destruct (push_blocked pa s (tsize t)).
     - inversion HP; subst s'. left. unfold measure, measureA; cbn [fst]; flds. rewrite C.
       destruct P as [P|P]; rewrite P; cbn [pstw]; lia.
-    - unfold admit in HP. destruct (notify_empty (ws s) ntf) as [l|] eqn:NE; [|discriminate].
+    - unfold do_admit in HP. destruct (notify_empty (ws s) ntf) as [l|] eqn:NE; [|discriminate].
       inversion HP; subst s'. left. unfold measure, measureA; cbn [fst]; flds. rewrite C, T.
       cbn [map opw list_sum length].
       assert (WL : wsum false l <= wsum false (ws s) + 1 /\ length l = length (ws s)).
@@ -430,11 +430,11 @@ Proof.
       - destruct (todo s) as [|[t|] rest]; eauto.
         unfold step_push in *. destruct (closed s); [discriminate|].
         destruct (push_blocked pa s (tsize t)); eauto.
-        unfold admit. destruct (notify_first (ws s)) as (l' & ->). eauto.
+        unfold do_admit. destruct (notify_first (ws s)) as (l' & ->). eauto.
       - destruct (todo s) as [|[t|] rest]; try discriminate.
         unfold step_push in *. destruct (closed s); [discriminate|].
         destruct (push_blocked pa s (tsize t)); eauto.
-        unfold admit. destruct (notify_first (ws s)) as (l' & ->). eauto. }
+        unfold do_admit. destruct (notify_first (ws s)) as (l' & ->). eauto. }
     destruct X as (s'' & ->). reflexivity.
   - unfold step_work in *. destruct (nth_error (ws s) w) as [wk|] eqn:E; [|discriminate].
     destruct (pc wk) as [| | |q|k|k g|k|] eqn:Hpc; try discriminate.
